@@ -246,7 +246,7 @@ class Contract:
     options: Dict[str, Any] = field(default_factory=dict)
 
 
-CLAUSES = {"ensures_effects", "ghost_arg", "no_raise_if", "requires", "ensures", "ensures_raise", "raises", "may_raise", "modifies", "ghost_set", "loop",
+CLAUSES = {"ghost_before", "ensures_effects", "ghost_arg", "no_raise_if", "requires", "ensures", "ensures_raise", "raises", "may_raise", "modifies", "ghost_set", "loop",
            "decreases", "hint", "split", "note", "fresh", "option"}
 
 
@@ -327,6 +327,8 @@ def parse_contract_file(path: str) -> Tuple[List[Contract], Dict[str, Any]]:
                 c.fresh.append((_const(call.args[0]), _const(call.args[1])))
             elif fn == "option":
                 c.options[_const(call.args[0])] = _const(call.args[1])
+            elif fn == "ghost_before":
+                c.options.setdefault("ghost_before", {}).setdefault(_const(call.args[0]), []).append((call.args[1], call.args[2]))
             elif fn == "ghost_arg":
                 c.options.setdefault("ghost_args", {})[_const(call.args[0])] = dict(kws)
             elif fn == "no_raise_if":
